@@ -105,8 +105,10 @@ class MergeFlow(Engine):
         st.mon['loopop'] = cur
         L = getattr(spec, 'listsym', None)
         if status in ('remove', 'insert', 'mixed') and L in st.heap:
-            ops = tuple(sorted((st.mon.get('lstops') or ()) + ((self.describe(Ref('list', L), st), status),)))[-8:]
-            st.mon['lstops'] = ops
+            key = (self.describe(Ref('list', L), st), status)
+            cur_ops = dict(st.mon.get('lstops') or ())
+            cur_ops[key] = min(cur_ops.get(key, 0) + 1, 3)
+            st.mon['lstops'] = tuple(sorted(cur_ops.items()))
         super().loop_exit(st, depth, spec, count)
 
     def loop_done(self, st, depth):
@@ -262,6 +264,18 @@ class MergeFlow(Engine):
             self.bump(st, Ref('elem', entry.anchor), -1)
         self.bump(st, node_, +1)
 
+    def on_live_mutation(self, st, node, parent, op):
+        if self.owner(parent, st) in ('RO', 'COPY'):
+            f = st.frames[-1]
+            self.find_('LIVE-ITER', st, f.callnode if f.callnode is not None else node, f'{op} while iterating {self.describe(parent, st)}',
+                       'children are added to / removed from an element while its live child list is being iterated: the iteration skips or repeats siblings')
+
+    def on_remove_by_index(self, st, node, parent, idx, entry):
+        self.mark_mutation(st, node, 'delete by index', parent)
+        if self.owner(parent, st) == 'RO':
+            self.find_('FRAME', st, node, f'del {self.describe(parent, st)}[{self.idx_descr(entry, st)}]',
+                       'a child is deleted by a position that no longer names the looked-up node: some other element is removed')
+
     def on_newchild(self, st, node, parent, node_, tag):
         self.count('newchild', st, node)
 
@@ -309,6 +323,29 @@ class MergeFlow(Engine):
         if ne.prov == 'MSG':
             self.find_('NO-SHARE', st, node, f'{what}(parent={self.describe(parent, st)}, node={self.describe(n, st)})',
                        'a subtree owned by the message object is linked into the running order without a copy')
+        elif ne.origin[0] == 'shallowcopy' and ne.copy_of in st.heap and self.owner(Ref('elem', ne.copy_of), st) == 'MSG':
+            self.find_('NO-SHARE', st, node, f'{what}(parent={self.describe(parent, st)}, node={self.describe(n, st)})',
+                       'a shallow copy shares every child element with the message object: only copy.deepcopy separates the two trees')
+        else:
+            held = self.held_by_message(n.sym, st)
+            if held:
+                self.find_('NO-SHARE', st, node, f'{what}(parent={self.describe(parent, st)}, node={self.describe(n, st)})',
+                           f'the inserted element stays referenced by the message object ({held}): merging the same object again inserts the very same element')
+
+    def held_by_message(self, nsym, st: State):
+        """Is the element stored (directly or inside a wrapper) in a field of a message object?"""
+        for sym, e in st.heap.items():
+            if isinstance(e, ObjE) and e.cls in self.merge_family and not self.prog.classes[e.cls].name == 'RunningOrder':
+                for fname, v in e.fields:
+                    if fname == '_xml':
+                        continue
+                    if isinstance(v, Ref) and v.sym == nsym:
+                        return f'self.{fname}'
+                    if isinstance(v, Ref) and v.kind == 'obj' and v.sym in st.heap:
+                        x = st.get(v.sym).get('_xml')
+                        if isinstance(x, Ref) and x.sym == nsym:
+                            return f'self.{fname}.xml'
+        return None
 
     # ---------------------------------------------------------------- index
     def on_index_use(self, st, node, parent, idx, entry, what):
@@ -381,6 +418,10 @@ class MergeFlow(Engine):
             st.mon['pending'] = self.pending(st) | {(kind, func, cons_key)}
 
     def on_caught(self, stmt, handler, exc, st):
+        if st.mon.get('loop_abandoned') and st.frame.func is not None and st.frame.func.name == 'merge':
+            self.find_('NO-EARLY-EXIT', st, stmt, st.mon['loop_abandoned'],
+                       'an exception raised inside the loop over named elements is caught outside it: the remaining elements are never applied')
+            st.mon['loop_abandoned'] = None
         # a not-found condition signalled by a repository helper through an exception (e.g. _find_story)
         if self.in_merge(st) and st.frame.func.name == 'merge' and not exc.implicit and exc.cls in ('ValueError', 'LookupError', 'KeyError', 'IndexError'):
             func, n, file, line = self.attrib(st, stmt)
@@ -477,12 +518,32 @@ class MergeFlow(Engine):
                     self.find_('NO-RO-CAPTURE', st, node, f'self.{name} = {self.describe(new, st)}',
                                'the message object keeps a reference into the running order')
 
+    def _is_payload_list(self, itval, st) -> bool:
+        """Lists of Story/Item wrappers or of message elements (not lists of indices / looked-up nodes)."""
+        v = itval
+        while hasattr(v, 'src') and not isinstance(v, Ref):
+            v = v.src
+        if isinstance(v, Ref) and v.kind == 'elem':
+            return self.owner(v, st) in ('MSG', 'COPY')
+        if isinstance(v, Ref) and v.kind == 'list':
+            le = st.get(v.sym)
+            if le.kind in ('findall', 'children', 'live') and le.parent in st.heap:
+                return self.owner(Ref('elem', le.parent), st) in ('MSG', 'COPY')
+            for t in le.items:
+                if isinstance(t, Ref) and t.kind == 'obj' and st.get(t.sym).cls not in self.merge_family:
+                    return True
+                if isinstance(t, Ref) and t.kind == 'elem' and st.get(t.sym).prov in ('MSG', 'COPY'):
+                    return True
+            if le.src and le.src in st.heap:
+                return self._is_payload_list(Ref('list', le.src), st)
+        return False
+
     def run_loop(self, itval, st, body, node, joiner=None):
         in_merge_frame = st.frames and st.frame.func is not None and st.frame.func.name == 'merge' and st.frame.func.cls is not None
         from_msg = False
         if in_merge_frame and isinstance(node, (ast.For,)):
             d = self.describe(itval, st)
-            from_msg = 'self.xml' in d
+            from_msg = 'self.xml' in d and self._is_payload_list(itval, st)
             if from_msg:
                 func, n, file, line = self.attrib(st, node)
                 self.sites.setdefault('payload-loop', set()).add((func, 'for ... in ' + norm(node.iter)))
@@ -501,6 +562,8 @@ class MergeFlow(Engine):
                 if isinstance(ctl, tuple) and ctl[0] == 'ret':
                     self.find_('NO-EARLY-EXIT', s, node, 'for ... in ' + norm(node.iter),
                                'the merge returns from inside the loop over named elements: the remaining ones are skipped silently')
+                elif isinstance(ctl, tuple) and ctl[0] == 'raise':
+                    s.mon['loop_abandoned'] = 'for ... in ' + norm(node.iter)
         return exits, escapes
 
     # --------------------------------------------------------------- driver
@@ -562,8 +625,8 @@ class MergeFlow(Engine):
         deltas = [(self.describe(Ref('elem', sym), s), d) for sym, d in (s.mon.get('sym:delta') or {}).items() if d != 0 and sym in s.heap]
         deltas += list(s.mon.get('dead_delta') or ())
         lst = {}
-        for descr, op in (s.mon.get('lstops') or ()):
-            lst.setdefault(descr, []).append(op)
+        for (descr, op), n in (s.mon.get('lstops') or ()):
+            lst.setdefault(descr, []).extend([op] * n)
         if kind == 'SWAP' and s.mon.get('mutated'):
             used = s.mon.get('setidx') or ()
             if used and (len(used) != 2 or len(set(used)) != 2):
